@@ -31,6 +31,8 @@ class WsConnA:
         self.handler_done = False
         self.proto = []
         self.on_frame = None
+        self.on_accept = None
+        self.on_close = None
         self.connect_delivered = False
         self.disconnect_delivered = False
         self.close_reason = None
@@ -85,6 +87,8 @@ class WsConnA:
                 raise ClientGone('peer gone')
             self.accepted = True
             self.accept_clk = self.sim.tick()
+            if self.on_accept is not None:
+                self.on_accept(self)
         elif tp == 'websocket.send':
             if not self.accepted:
                 self.proto.append('websocket.send before accept')
@@ -118,6 +122,8 @@ class WsConnA:
             self.server_closed = True
             self.close_reason = ev.get('reason')
             self.close_clk = self.sim.tick()
+            if self.on_close is not None:
+                self.on_close(self)
             # after the application closed the socket the ASGI server
             # answers every receive() with websocket.disconnect
             self.q.put_nowait({'type': 'websocket.disconnect',
@@ -132,10 +138,10 @@ class SimA(SimBase):
     def __init__(self, server_kwargs=None, handler_cfg=None,
                  websocket_available=True, host='srv.test', scheme='http',
                  async_handlers_coro=True, app_kwargs=None, body_chunks=1,
-                 **ignored):
+                 loop=None, **ignored):
         import engineio
         import engineio.async_socket as asock
-        self.loop = vloop.VLoop()
+        self.loop = loop or vloop.VLoop()
         self._init_base(handler_cfg)
         self.host, self.scheme = host, scheme
         self.body_chunks = body_chunks
@@ -316,6 +322,23 @@ class SimA(SimBase):
                 t.exc = e
                 import traceback
                 t.exc_tb = traceback.format_exc()[-1500:]
+            finally:
+                t.finish()
+        t.task = self.loop.create_task(run())
+        return t
+
+    def app_seq(self, calls):
+        t = Ticket(self, 'app', {'call': 'seq', 'n': len(calls)})
+        self.tickets.append(t)
+
+        async def run():
+            try:
+                for name, args in calls:
+                    await getattr(self.server, name)(*args)
+            except asyncio.CancelledError:
+                raise
+            except BaseException as e:
+                t.exc = e
             finally:
                 t.finish()
         t.task = self.loop.create_task(run())
